@@ -68,7 +68,7 @@ impl Command for T {
 pub fn gen(r: &mut Rng) -> Value {
     if r.chance(1, 40) {
         // C13: a script that would loop for ever, the embedder raises the flag from a second thread at some instant
-        return json!({"spin": true, "delay_us": r.below(3000), "shape": r.below(3)});
+        return json!({"spin": true, "delay_us": r.below(3000), "shape": r.below(8)});
     }
     let n = 2 + r.below(7);
     let labels = [":a", ":b", ":c"];
@@ -120,10 +120,21 @@ fn run_spin(input: &Value) -> Option<Value> {
     let tr = Arc::new(Mutex::new(vec![]));
     let mut context = Context::new();
     context.commands.set(Box::new(T { trace: tr.clone(), name: "t".to_string(), aliases: vec![] })).ok()?;
-    let script = match input["shape"].as_u64().unwrap_or(0) {
+    let shape = input["shape"].as_u64().unwrap_or(0);
+    if shape >= 3 {
+        // loops written with the library's own constructs: while, for-in + goto, a function as the condition, an
+        // error handled over and over
+        duckscriptsdk::load(&mut context.commands).ok()?;
+    }
+    let script = match shape {
         0 => "t goton - 0",
         1 => "x = t cont 1 -\n:again t gotol - :again",
-        _ => "t cont - -\nt cont - -\nt goton v 1",
+        2 => "t cont - -\nt cont - -\nt goton v 1",
+        3 => "while true\nx = set 1\nend",
+        4 => "a = range 0 3\n:top for i in ${a}\nx = set ${i}\nend\ngoto :top",
+        5 => "fn f\nreturn true\nend\nwhile f\ny = set 1\nend",
+        6 => ":l trigger_error again\ngoto :l",
+        _ => "n = set 0\nwhile true\nif true\nn = calc ${n} + 1\nelse\nn = set 0\nend\nend",
     };
     let halt = Arc::new(AtomicBool::new(false));
     let h2 = halt.clone();
